@@ -67,31 +67,64 @@ def r1(ctx):
                 distinct_keys=["lt", "eq", "gt", "side", "book", "reinsert", "limitless"], sample=render(evict_if[1]["c"]), exhaustive=True)
 
 
+def _stop_condition_table(cond):
+    """truth table of a stop condition over (buffered, limit, found), read with the finite interpreter; None if unreadable"""
+    import interp
+    ids = {x["res"] for x in walk_exprs(cond) if x["k"] == "Path" and x.get("rk") == "Local" and x.get("name") == "self"}
+    tbl = {}
+    for buffered in (False, True):
+        for limit in (0, 1, 2, 3):
+            for found in (0, 1, 2, 3, 4):
+                def call(node, recv, args, it, env, buffered=buffered):
+                    if node["k"] == "MCall" and node["m"] == "is_buffered":
+                        return (buffered,)
+                    return None
+                selfv = {"query": {"limit": limit}, "found": found}
+                try:
+                    v = interp.Interp(call=call).run(cond, {i: selfv for i in ids})
+                except interp.Undecided:
+                    return None
+                if not isinstance(v, bool):
+                    return None
+                tbl[(buffered, limit, found)] = v
+    return tbl
+
+
 def r2(ctx):
-    """every early exit on `limit <= found` applies to unbuffered output only"""
+    """every early exit on `limit <= found` applies to unbuffered output only: the stop condition, whatever its spelling
+    (De Morgan, mirrored comparison, `!= 0`, behind a helper), is evaluated on a grid of (buffered, limit, found)"""
     n = 0
     for fn in (VISIT_DIR, "searcher::Searcher::list_search_results", CHECK_FILE):
         hir = ctx.anchor_hir(fn)
         for x in walk_exprs(hir):
-            if x["k"] == "If":
-                cs = conjuncts(x["c"])
-                rs = [render(c) for c in cs]
-                if any("limit" in r and "found" in r for r in rs):
-                    n += 1
-                    has_unbuf = any(r.replace(" ", "") in ("!self.is_buffered()",) for r in rs)
-                    leaves = any(y["k"] in ("Break", "Ret") for y in walk_exprs(x["t"]))
-                    cmp_ok = any(("limit <= self.found" in r or "found >= self.query.limit" in r or "self.found >= " in r) for r in rs)
-                    pos_ok = any("limit > 0" in r or "limit != 0" in r for r in rs)
-                    ok = has_unbuf and leaves and cmp_ok and pos_ok
-                    ctx.obligation(ok)
-                    if not has_unbuf:
-                        ctx.violation("early-exit/%s/buffered" % short(fn, 1), ctx.where(fn, x),
-                                      "the search stops at `%s` even when rows are buffered for ORDER BY / aggregation: "
-                                      "the top N of the sorted result needs every row" % " && ".join(rs))
-                    elif not ok:
-                        ctx.violation("early-exit/%s/condition" % short(fn, 1), ctx.where(fn, x),
-                                      "early exit condition `%s` is not `unbuffered && limit > 0 && limit <= found`" % " && ".join(rs))
-    ctx.covered("early-exit tests on (limit, found)", n, distinct_keys=["sites:%d" % n])
+            if x["k"] != "If" or x["c"]["k"] == "LetE":
+                continue
+            r = render(x["c"])
+            if not ("limit" in r and "found" in r):
+                continue
+            if any(y is not x and y["k"] == "If" and "limit" in render(y["c"]) and "found" in render(y["c"]) for y in walk_exprs(x["c"])):
+                continue
+            n += 1
+            leaves = any(y["k"] in ("Break", "Ret") for y in walk_exprs(x["t"]))
+            tbl = _stop_condition_table(x["c"])
+            if tbl is None:
+                ctx.obligation(False)
+                ctx.violation("early-exit/%s/unreadable" % short(fn, 1), ctx.where(fn, x), "cannot evaluate the stop condition `%s`" % r[:160])
+                continue
+            bad_buf = [k for k, v in tbl.items() if v and k[0]]
+            spec = {k: (not k[0]) and k[1] > 0 and k[1] <= k[2] for k in tbl}
+            bad = [k for k in tbl if tbl[k] != spec[k]]
+            ok = leaves and not bad
+            ctx.obligation(ok)
+            if bad_buf:
+                ctx.violation("early-exit/%s/buffered" % short(fn, 1), ctx.where(fn, x),
+                              "the search stops at `%s` even when rows are buffered for ORDER BY / aggregation (e.g. limit %d, found %d): "
+                              "the top N of the sorted result needs every row" % (r[:200], bad_buf[0][1], bad_buf[0][2]))
+            elif not ok:
+                ctx.violation("early-exit/%s/condition" % short(fn, 1), ctx.where(fn, x),
+                              "early exit condition `%s` is not `unbuffered && limit > 0 && limit <= found`%s" %
+                              (r[:200], (": differs at (buffered, limit, found) = %s" % (bad[0],)) if bad else ""))
+    ctx.covered("early-exit tests on (limit, found), each evaluated on 2 x 4 x 5 points", n, distinct_keys=["sites:%d" % n], exhaustive=True)
     ctx.floor(n, 2, "limit early-exit sites (directory loop, archive loop)", VISIT_DIR)
 
 
@@ -101,7 +134,7 @@ def r3(ctx):
     for b in ctx.prog.bodies():
         for i, j, p, rv in b.assigns():
             if p["pr"] and p["pr"][-1] == ".found":
-                writers.append((b.name, i))
+                writers.extend((o, i) for o in sorted(ctx.prog.owners(b.name)))
     real = [w for w in writers if w[0] != NEW]
     ok = len(real) == 1 and real[0][0] == CHECK_FILE
     ctx.obligation(ok)
